@@ -412,6 +412,9 @@ def attribute(case, ctx, v):
         # a multi-field wrapper takes the value of an alternative that DESERIALIZES (pre-validation only) although
         # the alternative does not accept that value
         if g["t"] in G6.WRAPPERS:
+            # the value the wrapper hands on: AnyOf -- that of the FIRST alternative that deserializes; the other
+            # wrappers -- that of the LAST one (their own errors are raised inside the try and count as failures)
+            taken = None
             for gi in g["fs"]:
                 try:
                     fobj = G6.single_field_class(gi, ctx).get_all_fields_by_name()["f"]
@@ -419,8 +422,11 @@ def attribute(case, ctx, v):
                         dv = deserialize_single_field(fobj, copy.deepcopy(x), keep_undefined=case["ku"])
                 except Exception:  # noqa
                     continue
-                if not option_accepts(gi, dv, ctx):
-                    return "wrapper-takes-alternative-that-deserializes-but-does-not-validate"
+                taken = (gi, dv)
+                if g["t"] == "anyof":
+                    break
+            if taken is not None and not option_accepts(taken[0], taken[1], ctx):
+                return "wrapper-takes-alternative-that-deserializes-but-does-not-validate"
     return None
 
 
